@@ -516,6 +516,32 @@ pub fn gen_c19(tier: Tier, seed: u64, em: &mut Emitter) {
             }
         }
     }
+    // interior values of the value field (not only the boundaries of the ranges): every
+    // resolution x data type, map form
+    for &v in &[1i64, 2, 64, 126, 129, 130, 191, 192, 255, 256, 257, 300, 383, 384, 511, 512, 1000, 4095, 4096,
+                8191, 8192, 8193, 12345, 16255, 16256, 16257, 16382] {
+        for reg in 0..2 {
+            for w in 0..2 {
+                for dt in ["DataEntry", "DataIncrement", "DataDecrement"] {
+                    let fields = [("channel", jint(r.below(16) as i64)), ("number", jint(r.below(16384) as i64)),
+                                  ("value", jint(v)), ("is_registered", vec![1, reg]), ("is_14_bit", vec![1, w]),
+                                  ("data_type", jstr(dt))];
+                    if let Some(form) = struct_forms(&fields).into_iter().next() {
+                        emit(em, "pn/interior values", 17, form);
+                    }
+                }
+            }
+        }
+    }
+    for _ in 0..300 {
+        let fields = [("channel", jint(r.below(17) as i64)), ("number", jint(r.below(16400) as i64)),
+                      ("value", jint(r.below(16400) as i64)), ("is_registered", vec![1, r.below(2) as i64]),
+                      ("is_14_bit", vec![1, r.below(2) as i64]),
+                      ("data_type", jstr(r.pick(&["DataEntry", "DataIncrement", "DataDecrement"])))];
+        for form in struct_forms(&fields).into_iter().take(2) {
+            emit(em, "pn/random", 17, form);
+        }
+    }
     for _ in 0..500 {
         let w = r.below(2) as i64;
         let dt = if w == 1 { 0 } else { r.below(3) as i64 };
